@@ -74,6 +74,29 @@ PROPS = {
                 "[send protocol fee to collector] (each only when non-zero); each route hop consumes exactly the previous hop's output; route fee "
                 "messages only burn or pay the fee collector",
     },
+    "C06": {
+        "module": "MantraDex.Properties.C06", "ns": "MantraDex.C06",
+        "theorems": ["farm_terms_shape", "farm_terms_epochs_nodup", "term_le_emission", "rewards_after_cursor", "reclaim_pays_nothing",
+                     "claim_sets_cursor", "claim_farms_bounded", "update_weights_effect_next_epoch"],
+        "streams": {"fm_hist": (80, 4000)},
+        "what": "every reward term is floor(rate*user_weight/total_weight) for an epoch inside the farm's life and strictly after the claim cursor, "
+                "at most one term per epoch; <= the epoch's emission when user weight <= total; the cursor moves to until (<= current epoch), "
+                "re-claiming pays nothing and earlier untils are refused (no epoch paid twice); claimed_amount never exceeds the funded amount; "
+                "weight changes are recorded for epoch+1 only. End-to-end bound over whole histories: ledger monitor monClaim on every claim",
+        "assumptions": ["that the weights used are the true per-epoch weights is C07's refinement lemmas + the ledger monitor (per generated claim)"],
+    },
+    "C07": {
+        "module": "MantraDex.Properties.C07", "ns": "MantraDex.C07",
+        "theorems": ["histSet_sorted", "histGet_histSet", "weightAt_histSet_before", "address_scan_eq_weightAt", "contract_scan_eq_weightAt",
+                     "sync_preserves_weightAt", "farm_terms_sum_eq_ledger", "epoch_share_floor", "query_eq_claim_single_lp"],
+        "streams": {"fm_hist": (80, 4000)},
+        "what": "refinement core: the user scan and the total-weight scan of the compacted history compute the ledger's weight in effect (Spec.weightAt); "
+                "claim-time compaction preserves the weight in effect from the claimed epoch on (schedule independence); a farm's terms add up to "
+                "the ledger entitlement Spec.spanReward; each payment is the floor of the exact share; Rewards query = Claim payout (single LP token)",
+        "assumptions": ["the end-to-end statement over whole histories (any claim schedule pays the same) is validated per generated claim by the "
+                        "independent ledger monitor, not proved; query=claim proved for users with one LP token"],
+    },
+
     "C12": {
         "module": "MantraDex.Properties.C12", "ns": "MantraDex.C12",
         "theorems": ["simulation_eq_swap", "performSwap_frame", "route_eq_simulation", "reverse_quote_plus_one_suffices_partial", "reverse_quote_witness"],
